@@ -1,6 +1,7 @@
 package props
 
 import (
+	"fmt"
 	"sort"
 	"strconv"
 	"strings"
@@ -413,5 +414,101 @@ func init() {
 			m[[]rune(k)[0]] = []rune(v)[0]
 		}
 		return c11RenameVerdict(doCall(r.Calls[0]), doCall(r.Calls[1]), m)
+	}
+}
+
+// caseRunes: letters whose case counterpart has another UTF-8 length (dotless
+// i, long s, Kelvin, Angstrom, Ohm, U+023A, U+0250, capital sharp s), letters
+// with title case and ligatures, next to ordinary ones.
+var caseRunes = []rune{'a', 'Z', 'é', 'É', 'ß', 0x1E9E, 0x0131, 0x0130, 0x017F, 0x212A, 0x212B, 0x2126, 0x023A, 0x023E, 0x2C65, 0x2C66, 0x0250, 0x2C6F, 0x01C5, 0xFB01, 0x03A3, 0x03C2, 0x03C3, 0x1C80, 0x1FBE, 0xA78D, 0x10400, 0x10428, '日', '0', ' ', 0x0345, 0x0301}
+
+// C11 (case): upper and lower never corrupt text. Which letters they map is
+// not pinned beyond ASCII (the model says so); that the result of a valid
+// UTF-8 string is valid UTF-8, that mapping twice equals mapping once, and
+// that ASCII letters are mapped, is.
+func TestC11_Case(t *testing.T) {
+	c := collector("C11", "case")
+	check(t, func(t *rapid.T) {
+		n := rapid.IntRange(0, 8).Draw(t, "slen")
+		rs := make([]rune, n)
+		for i := range rs {
+			rs[i] = gen.Pick(t, "r", caseRunes)
+		}
+		s := string(rs)
+		fn := gen.Pick(t, "fn", []string{"upper", "lower"})
+		doc := jv.VObj([]jv.Member{{K: "s", V: jv.VStr(s)}})
+		var S ast.Expr = ast.F("s")
+		if rapid.Bool().Draw(t, "literal") {
+			S = ast.RawS(s)
+		}
+		once := ast.Call(fn, ast.A(S))
+		twice := ast.Call(fn, ast.A(once))
+		e := &ast.Chain{Head: ast.Head{Kind: ast.HMultiList, Items: []ast.Expr{once, twice, ast.Call("length", ast.A(once)), ast.Call(fn, ast.A(ast.RawS("aZ"))), ast.Call("reverse", ast.A(once))}}}
+		text := ast.RenderWith(e, gen.Chooser{T: t})
+		node := run.FromVal(doc)
+		call := run.Call{API: "search", Expr: text, Doc: &node}
+		c.Case()
+		run.Watch(c, "case", call)
+		msg := c11CaseVerdict(fn, run.Search(text, node.Build()))
+		if msg != "" {
+			c.Fail(t, run.Replay{Check: "case", Kind: "custom:c11-case", Calls: []run.Call{call}, Message: msg, Extra: mustJSON(map[string]any{"fn": fn})}, fn)
+			return
+		}
+		c.Label(fn)
+		if widths(s) >= 2 {
+			c.NonTrivial(text+"\x00"+s, func() any { return map[string]any{"expr": text, "string": s} })
+		}
+	})
+}
+
+func c11CaseVerdict(fn string, o run.Outcome) string {
+	if o.Panic != "" {
+		return "library panicked: " + o.Panic
+	}
+	if o.Failed {
+		return "unexpected error: " + o.String()
+	}
+	if o.Info.BadUTF8 {
+		return "the result of " + fn + " on valid UTF-8 is not valid UTF-8: " + o.String()
+	}
+	v := o.Val
+	if v.K != jv.Arr || len(v.A) != 5 || v.A[0].K != jv.Str || v.A[1].K != jv.Str || v.A[2].K != jv.Num || v.A[4].K != jv.Str {
+		return "unexpected result shape: " + o.String()
+	}
+	if !utf8.ValidString(v.A[0].S) || !utf8.ValidString(v.A[4].S) {
+		return "the result of " + fn + " on valid UTF-8 is not valid UTF-8: " + o.String()
+	}
+	if v.A[0].S != v.A[1].S {
+		return fmt.Sprintf("%s applied twice differs from %s applied once: %q vs %q", fn, fn, v.A[1].S, v.A[0].S)
+	}
+	if n := int64(utf8.RuneCountInString(v.A[0].S)); !v.A[2].R.IsInt() || v.A[2].R.Num().Int64() != n {
+		return fmt.Sprintf("length(%s(s)) = %s but the result has %d code points", fn, v.A[2].JSON(), n)
+	}
+	want := "AZ"
+	if fn == "lower" {
+		want = "az"
+	}
+	if v.A[3].S != want {
+		return fmt.Sprintf("%s('aZ') = %q", fn, v.A[3].S)
+	}
+	rv := []rune(v.A[0].S)
+	for i, j := 0, len(rv)-1; i < j; i, j = i+1, j-1 {
+		rv[i], rv[j] = rv[j], rv[i]
+	}
+	if v.A[4].S != string(rv) {
+		return fmt.Sprintf("reverse(%s(s)) = %q is not the reverse of %q", fn, v.A[4].S, v.A[0].S)
+	}
+	return ""
+}
+
+func init() {
+	customReplays["custom:c11-case"] = func(r run.Replay) string {
+		var ex struct {
+			Fn string `json:"fn"`
+		}
+		if err := jsonUnmarshal(r.Extra, &ex); err != nil || len(r.Calls) == 0 {
+			return "malformed replay"
+		}
+		return c11CaseVerdict(ex.Fn, doCall(r.Calls[0]))
 	}
 }
